@@ -1171,7 +1171,7 @@ theorem C04_remove_item_in_wok (w : World) (h : WOk w) (c : Nat) (s : Store) (hs
 
 /-- C04_refines: in a world satisfying WOk, an op that keeps to the documented contract does to the documented model with object
     identities (`absW`, Spec/StoreSpec: every managed CIF as container tree + loops of (category, items, packets)) exactly what
-    `specStep` says, and returns the same result — with no further hypothesis.  Covered so far (`Op.covered`, 13 of the 34 ops): cif_create, cif_destroy,
+    `specStep` says, and returns the same result — with no further hypothesis.  Covered so far (`Op.covered`, 17 of the 34 ops): cif_create, cif_destroy, get_names, get_category_loop, get_item_loop, prune,
     get_block, get_all_blocks, get_frame, get_all_frames, get_code, is-block, container_destroy, loop_get_category, loop_add_packet,
     loop_set_category, loop_destroy; the per-op theorems above cover the other non-iterator ops container by container. -/
 theorem C04_refines (w : World) (op : Op) (h : WOk w) (hin : inContract w op = true) (hc : op.covered = true) :
